@@ -52,8 +52,22 @@ func runC05(c *engine.Ctx) {
 		check := funcObj(c, "pkg/util/net", "CheckAndEnableTLSServerConnWithTimeout")
 		forceF := field(c, "pkg/config/v1", "TLSServerConfig", "Force")
 		hc := method(c, "server", "Service", "handleConnection")
-		for _, ci := range engine.CallsTo(f, check) {
-			call := ci.(*ssa.Call)
+		// the probe may sit in a step split out of HandleListener (a helper that returns the connection and the error)
+		type probeSite struct {
+			g    *ssa.Function
+			call *ssa.Call
+		}
+		var sites []probeSite
+		for _, g := range append([]*ssa.Function{f}, allAnon(f)...) {
+			for _, ci := range engine.CallsTo(g, check) {
+				if cl, ok := ci.(*ssa.Call); ok {
+					sites = append(sites, probeSite{g, cl})
+				}
+			}
+		}
+		for _, ps := range sites {
+			call := ps.call
+			f := ps.g
 			n++
 			src := engine.Provenance(call.Call.Args[2], engine.ProvOpts{})
 			c.Check(src.HasField(forceF) && len(src.Consts) == 0, "server.Service.HandleListener>force-flag", call.Pos(), 2, []string{src.Summary()}, "the sniffer is told the configured TLS.Force value")
@@ -85,6 +99,16 @@ func runC05(c *engine.Ctx) {
 							return "a connection refused by the TLS check is handed to protocol handling"
 						}
 						if !st.HasEvent("close") {
+							// a split-out step may hand the refusal back to its caller as an error
+							if r, isRet := st.Sink.(*ssa.Return); isRet && f.Parent() == nil {
+								for _, rv := range r.Results {
+									if types.Identical(rv.Type(), types.Universe.Lookup("error").Type()) {
+										if isN, kn := st.NilFact(st.Resolve(rv)); !(kn && isN) && !engine.IsNilConst(st.Resolve(rv)) {
+											return ""
+										}
+									}
+								}
+							}
 							return "a connection refused by the TLS check is not closed"
 						}
 					}
